@@ -116,9 +116,9 @@ NUM_CARRIERS = ["sub_both", "sub_both2", "assign", "assign_elem", "sub_rhs", "su
                 "dev_hcircle", "dev_poke", "read_sub", "input_sub", "loop_body", "jump_target", "two_statements", "width",
                 "assign_raw", "assign_elem_raw", "print_raw", "print_item_raw", "print_at_raw", "print_last_raw", "print_many",
                 "varptr_sub", "varptr_sub2", "if_nested_false", "if_nested_true", "if_nested_deep",
-                "for_limit_step", "for_all_three", "poke_fast", "poke_slow", "poke_fast_hex", "assign_self", "assign_self_elem"]
+                "for_limit_step", "for_all_three", "poke_fast", "poke_slow", "poke_fast_hex", "assign_self", "assign_self_elem", "if_rem_then", "if_rem_then2"]
 STR_CARRIERS = ["assign_s", "assign_elem_s", "print_item_s", "print_at_item_s", "if_s_noelse", "if_s_else", "dev_hprint",
-                "dev_hdraw", "loop_body_s", "len_assign", "assign_self_s"]
+                "dev_hdraw", "loop_body_s", "len_assign", "assign_self_s", "if_rem_then_s"]
 
 
 def carrier(name, e):
@@ -180,6 +180,13 @@ def carrier(name, e):
     if name == "if_nested_deep":
         return one([("let", R, n(2), False), ("if", ("bin", ">", A, n(0)), ("stmts", [("if", ("bin", "<", B, n(0)), ("stmts", [
             ("if", ("bin", ">", e, n(1)), ("stmts", [("let", R, n(1), False)]), [], None)]), [], None)]), [], None)])
+    if name == "if_rem_then":
+        # the THEN part holds nothing but a remark: the condition is evaluated all the same (INKEY$ is read, BUTTON polled)
+        return [(30, [("if", ("bin", ">", e, n(1)), ("stmts", [("rem", " DISCARD", "'")]), [], None)]), (40, [("let", R, n(1), False)])]
+    if name == "if_rem_then2":
+        return [(30, [("let", R, n(2), False), ("if", ("bin", ">", e, n(1)), ("stmts", [("rem", "", "REM")]), [], None)]), (40, [("let", ("var", "Q"), R, False)])]
+    if name == "if_rem_then_s":
+        return [(30, [("if", ("bin", "<>", e, ("str", "")), ("stmts", [("rem", " TYPE-AHEAD", "'")]), [], None)]), (40, [("let", RS, ("str", "Z"), False)])]
     if name == "if_noelse":
         return one([("let", R, n(2), False), ("if", ("bin", ">", e, n(1)), ("stmts", [("let", R, n(1), False)]), [], None)])
     if name == "if_else":
